@@ -22,7 +22,8 @@ def gen_key_fn(rng, ty):
     """group / split / distinct key function producing hashable, comparable values"""
     if ty == INT:
         return rng.choice([['mod', 2], ['mod', 3], ['key_of'], ['str_of'], ['big_of'], ['floordiv', 3],
-                           ['is_even'], ['id'], ['const', 7]])
+                           ['is_even'], ['id'], ['const', 7], ['none_if_mod', 2, rng.choice([0, 1])],
+                           ['none_if_mod', 3, rng.choice([0, 2])]])
     if ty == TUP:
         return rng.choice([['nth', 0], ['id'], ['const', None]])
     return rng.choice([['const', 1], ['id']]) if ty in HASHABLE else ['const', 1]
@@ -94,7 +95,8 @@ class Gen(object):
             if k == 'count':
                 return [['scan', ['count'], rng.choice([0, 5]), r, None]], INT
             if k == 'last':
-                return [['scan', ['last'], None, r, None]], ty
+                # in reduce mode an empty lifetime emits the seed None: the output is not of the item type
+                return [['scan', ['last'], None, r, None]], (ANY if r else ty)
             # a mutating accumulator: only in reduce mode (or frozen right away) so that aliasing of the
             # emitted list cannot be observed downstream
             if rng.random() < 0.5:
